@@ -204,6 +204,17 @@ fn run_init<const N: usize>(t: Tape, light_faults: bool) -> CaseOutcome {
             for sd in g.g2.iter(md) {
                 check(2, sd.configured_address(), sd.name(), sd.identity(), sd.alias_address(), sd.dc_support(), &mut out);
             }
+            // Ports: what init recorded as open must be the link state that device reported.
+            for sd in g.g0.iter(md).chain(g.g1.iter(md)).chain(g.g2.iter(md)) {
+                let i = sd.configured_address().wrapping_sub(0x1000) as usize;
+                if i < n {
+                    let got = ethercrab::verif::subdevice_open_ports(&sd);
+                    let want = w.sim.seg.devices[i].port_open;
+                    if got != want {
+                        out.violations.push(viol("wrong-ports", format!("device {}: open ports recorded as {:?}, the device reports link on {:?} (port numbers 0..3)", i, got, want)));
+                    }
+                }
+            }
             for (i, c) in seen.iter().enumerate() {
                 if *c != 1 {
                     out.violations.push(viol("not-exactly-one-group", format!("device {} appears {} times in the groups", i, c)));
